@@ -2,3 +2,4 @@ CONSTANTS QN = 3
 Depth = 7
 SPECIFICATION Spec
 INVARIANT ShiftOK
+INVARIANT AmpOK
